@@ -16,7 +16,9 @@ ASSUMPTIONS = ["reference = torch.optim algorithms as documented: Adam/AdamW neg
                "SGD with maximize=True and weight_decay != 0: the SGD documentation's pseudo-code (theta + lr*(g + wd*theta)) and torch's implementation "
                "(negate g first) differ; either trajectory is accepted",
                "bias-correction step count for a parameter that skipped steps (frozen / no gradient) is not asserted: such a parameter is only required "
-               "to stay fixed while frozen; model comparison stops for it after its first skipped step",
+               "to stay fixed while frozen and to move again once trainable; for Adam/AdamW model comparison stops for it after its first skipped step (SGD stays compared)",
+               "the learning rate is a public attribute (`opt.lr`); when it exists and equals the constructed value, histories may reassign it between steps "
+               "(the only way to run a schedule with this library) and every later step must use the current value; signature suffix :after-lr-reassigned",
                "tolerance 1e-11 relative to max(1,|theta|) per comparison in float64, 2e-4 in float32 (model re-synchronised to the float32 data after each step)"]
 SHARD_TIMEOUT = {"quick": 600, "thorough": 1800}
 
@@ -128,6 +130,16 @@ def run_case(ns, mon, case):
     opt_params = params[:npar]
     by = params[npar:]
     kw = dict(hp)
+    events = []
+    froze = False
+    if rng.random() < 0.2:
+        # fine-tuning schedule: a parameter is frozen while the optimizer is built and unfrozen later; from then on it is a trainable
+        # parameter that was given to the optimizer, so step() must move it
+        j0 = int(rng.integers(npar))
+        opt_params[j0].requires_grad = False
+        froze = True
+        events.append(f"p{j0} frozen before the optimizer is constructed")
+        counters["frozen_at_construction"] = 1
     if kind != "SGD":
         kw["betas"] = tuple(kw["betas"])
     try:
@@ -149,10 +161,9 @@ def run_case(ns, mon, case):
     kinds = []
     nsteps = 0
     nozero_step = False
-    froze = False
+    lr_changed = False
     last_was_step = False
     max_steps = 8 if dt == np.float32 else 10 ** 6
-    events = []
 
     def snap(ps):
         return [p.data.tobytes() for p in ps]
@@ -181,6 +192,7 @@ def run_case(ns, mon, case):
             grads = [None if p._grad is None else np.array(p._grad, dtype=np.float64) for p in opt_params]
             active = [bool(p.requires_grad) for p in opt_params]
             before_by = snap(by)
+            before_all = snap(opt_params)
             before_frozen = {i: opt_params[i].data.tobytes() for i in range(npar) if not active[i]}
             before_nograd = {i: opt_params[i].data.tobytes() for i in range(npar) if active[i] and grads[i] is None}
             meta = [(p.data.dtype, p.data.shape) for p in params]
@@ -199,9 +211,17 @@ def run_case(ns, mon, case):
             for v in list(alive):
                 refs[v].step(grads, active)
             for i in range(npar):
-                if not active[i] or grads[i] is None:
-                    if tracked[i]:
-                        tracked[i] = False
+                # Adam/AdamW: per-parameter or global step count in the bias correction are both defensible once a parameter has skipped a step
+                # -> its trajectory is no longer compared (it must still move, below); SGD has no such ambiguity and stays compared
+                if (not active[i] or grads[i] is None) and kind != "SGD":
+                    tracked[i] = False
+            for i in range(npar):
+                if active[i] and grads[i] is not None and np.any(grads[i] != 0) and np.all(np.isfinite(grads[i])) and hp["lr"] > 0:
+                    counters["moved_checks"] = counters.get("moved_checks", 0) + 1
+                    if opt_params[i].data.tobytes() == before_all[i]:
+                        viol.append(V(f"{kind}:trainable-parameter-with-gradient-not-updated",
+                                      "a parameter that was given to the optimizer, requires grad and holds a non-zero gradient was not changed by step()",
+                                      hp=hp, events=events[-10:], index=i))
             for j, p in enumerate(params):
                 if id(p.data) != data_ids[j]:
                     viol.append(V(f"{kind}:parameter-storage-replaced", "step() rebound parameter.data to a new array instead of updating in place", hp=hp))
@@ -239,7 +259,8 @@ def run_case(ns, mon, case):
                     ok_variants.add(v)
             if not ok_variants:
                 cls = hp_class(kind, hp)
-                viol.append(V(f"{kind}:trajectory-differs-from-reference:{cls}" + (":after-step-without-zero_grad" if nozero_step else ""),
+                viol.append(V(f"{kind}:trajectory-differs-from-reference:{cls}" + (":after-step-without-zero_grad" if nozero_step else "")
+                              + (":after-lr-reassigned" if lr_changed else ""),
                               f"parameter after step {nsteps} differs from the reference update rule (rel err {worst[2]:.3g})", hp=hp, events=events,
                               got=worst[3], want=worst[4], step=nsteps))
                 break
@@ -268,6 +289,14 @@ def run_case(ns, mon, case):
             else:
                 opt_params[i].requires_grad = True
                 kinds.append("unfreeze"); events.append(f"unfreeze p{i}")
+        elif r < 0.93:
+            # the learning rate is a public attribute; reassigning it is how a schedule / warm-up is run with this library
+            if getattr(opt, "lr", None) == hp["lr"]:
+                hp["lr"] = hp["lr"] * 0.5           # the reference models share this dict
+                opt.lr = hp["lr"]
+                lr_changed = True
+                kinds.append("lr"); events.append(f"opt.lr = {hp['lr']}")
+                counters["lr_reassigned"] = counters.get("lr_reassigned", 0) + 1
         if len(viol) > 3:
             break
     mv = [v for v in mon.drain() if not v["sig"].startswith(("grad-dtype", "release"))]
@@ -278,7 +307,7 @@ def run_case(ns, mon, case):
             seen.add(v["sig"]); vv.append(v)
     key = json.dumps([hp_class(kind, hp), case["dtype"], kinds]) if nontrivial else None
     return {"key": key, "viol": vv, "counters": counters,
-            "cover": {"hp_classes": [hp_class(kind, hp)], "features": [k for k, b in (("step-without-zero_grad", nozero_step), ("freeze", froze),
+            "cover": {"hp_classes": [hp_class(kind, hp)], "features": [k for k, b in (("step-without-zero_grad", nozero_step), ("freeze", froze), ("lr-reassigned", lr_changed),
                                                                                      ("float32", dt == np.float32), ("doc-variant-considered", len(variants) > 1)) if b]},
             "sample": {"case": case, "events": events[:30]}}
 
